@@ -21,6 +21,8 @@ CONSTANTS
     Lambda,     \* l2_lambda, rational <<n, d>>
     MaxBatch, MaxHist, MaxDepth, Ops, QuerySets,   \* QuerySets: set of sequences of context points
     Scaled,     \* scale=True: features are standardised per arm (covered for a single fit, as the property states)
+    Feat,       \* [Labels -> sequence of Int] arm features for warm_start (integer norms)
+    Quantiles,  \* set of rationals
     Dev
 
 VARIABLES arms, fitted, hist, born, A, B, status, last
@@ -110,6 +112,46 @@ RemoveArm(a) ==
     /\ UNCHANGED <<fitted, hist>>
     /\ last' = [op |-> "remove_arm", arm |-> a]
 
+(* warm start (same rule as Mab.tla): a cold arm receives an exact copy of the model of the closest trained arm
+   (cosine distance on the arm features, first in arm order on ties) if that distance is within the quantile
+   threshold of the closest-pair distances *)
+DotI(u, v)  == ISumSeq([i \in DOMAIN u |-> u[i] * v[i]])
+ISqrt(n)    == CHOOSE k \in 0..n : k * k = n
+SelfDist    == <<999999, 1>>
+CosDist0(x, y) ==
+    IF x = y THEN SelfDist
+    ELSE LET nx == ISqrt(DotI(Feat[x], Feat[x]))  ny == ISqrt(DotI(Feat[y], Feat[y]))
+         IN  IF nx = 0 \/ ny = 0 THEN SelfDist ELSE RSub(ROne, RFrac(DotI(Feat[x], Feat[y]), nx * ny))
+CosTab == [x \in Labels |-> [y \in Labels |-> CosDist0(x, y)]]
+CosDist(x, y) == CosTab[x][y]
+Closest(x) == RMinSeq([i \in DOMAIN arms |-> CosDist(x, arms[i])])
+ClosestList == SelectSeq([i \in DOMAIN arms |-> Closest(arms[i])], LAMBDA d : d # SelfDist)
+ColdArms    == SelectSeq(arms, LAMBDA a : ~status[a].tr /\ ~status[a].wm)
+TrainedArms == SelectSeq(arms, LAMBDA a : status[a].tr)
+RECURSIVE ArgMinFrom(_, _, _, _)
+ArgMinFrom(c, cand, i, best) ==
+    IF i > Len(cand) THEN best
+    ELSE ArgMinFrom(c, cand, i + 1, IF RLt(CosDist(c, cand[i]), CosDist(c, best)) THEN cand[i] ELSE best)
+NearestSource(c) == ArgMinFrom(c, TrainedArms, 2, TrainedArms[1])
+WarmMap(q) ==
+    LET thr == RQuantile(ClosestList, q)
+        W == {c \in RangeS(ColdArms) : Len(TrainedArms) > 0 /\ RLeq(CosDist(c, NearestSource(c)), thr)}
+    IN  [c \in W |-> NearestSource(c)]
+WarmUnambiguous(q) ==
+    \/ RMul(R(Len(ClosestList) - 1), q)[2] = 1
+    \/ LET thr == RQuantile(ClosestList, q)
+       IN  \A c \in RangeS(ColdArms) : Len(TrainedArms) > 0 => CosDist(c, NearestSource(c)) # thr
+
+WarmStart(q) ==
+    /\ "warm_start" \in Ops /\ fitted /\ q \in Quantiles
+    /\ Len(ClosestList) > 0 /\ WarmUnambiguous(q)
+    /\ LET wm == WarmMap(q) IN
+       /\ A' = [a \in RangeS(arms) |-> IF a \in DOMAIN wm THEN A[wm[a]] ELSE A[a]]
+       /\ B' = [a \in RangeS(arms) |-> IF a \in DOMAIN wm THEN B[wm[a]] ELSE B[a]]
+       /\ status' = [a \in RangeS(arms) |-> IF a \in DOMAIN wm THEN [tr |-> FALSE, wm |-> TRUE, by |-> wm[a]] ELSE status[a]]
+       /\ last' = [op |-> "warm_start", q |-> q, map |-> wm]
+    /\ UNCHANGED <<arms, fitted, hist, born>>
+
 (* the documented covariance of an arm: A^-1; for an arm never observed that is I/lambda *)
 Cov(a) == IF "RidgeInitAinv" \in Dev /\ A[a] = LamI THEN LamI ELSE Inv(A[a])
 
@@ -147,6 +189,7 @@ Next ==
     \/ \E b \in Batches : Fit(b) \/ PartialFit(b)
     \/ \E a \in Labels : AddArm(a) \/ RemoveArm(a)
     \/ \E X \in QuerySets : Query("predict_expectations", X) \/ Query("predict", X)
+    \/ \E q \in Quantiles : WarmStart(q)
 
 Spec == Init /\ [][Next]_vars
 
@@ -167,13 +210,22 @@ DefFrom(a, i, acc) ==
     ELSE DefFrom(a, i + 1, <<MAdd(acc[1], Outer(hist[i].x)), VAdd(acc[2], Scale(hist[i].x, hist[i].r))>>)
 DefAB(a) == DefFrom(a, born[a] + 1, <<LamI, ZeroV>>)
 
-Inv_C02_NormalEq == \A a \in RangeS(arms) : A[a] = DefAB(a)[1] /\ B[a] = DefAB(a)[2]
+\* (a warm-started arm holds a copy of its source's matrices plus its own later rows: asserted for the other arms)
+Inv_C02_NormalEq == \A a \in RangeS(arms) : ~status[a].wm => (A[a] = DefAB(a)[1] /\ B[a] = DefAB(a)[2])
 Inv_C02_Solves   == \A a \in RangeS(arms) : MV(A[a], Beta(a)) = B[a] /\ RLt(RZero, Det(A[a]))
 Inv_C02_Unobserved ==
-    \A a \in RangeS(arms) : (DefAB(a) = <<LamI, ZeroV>>) =>
+    \A a \in RangeS(arms) : (DefAB(a) = <<LamI, ZeroV>> /\ ~status[a].wm) =>
         /\ Beta(a) = ZeroV
         /\ \A x \in Ctx : ArmAtRaw(a, x).bonus2 = RDiv(DotR(RV(x), RV(x)), Lambda)
 Inv_C08_Keys == DOMAIN A = RangeS(arms) /\ DOMAIN B = RangeS(arms) /\ DOMAIN status = RangeS(arms)
+(* C13 for linear policies: only cold arms change, they receive an exact copy of a trained arm's model *)
+Prop_C13_WarmStart ==
+    [][last'.op = "warm_start" =>
+         LET wm == last'.map IN
+         /\ \A a \in RangeS(arms) \ DOMAIN wm : A'[a] = A[a] /\ B'[a] = B[a] /\ status'[a] = status[a]
+         /\ \A c \in DOMAIN wm : /\ ~status[c].tr /\ ~status[c].wm /\ status[wm[c]].tr
+                                  /\ A'[c] = A[wm[c]] /\ B'[c] = B[wm[c]]
+                                  /\ \A w \in RangeS(TrainedArms) : RLeq(CosDist(c, wm[c]), CosDist(c, w))]_vars
 Prop_C10_ReadOnly == [][last'.op \in {"predict", "predict_expectations"} => UNCHANGED modelVars]_vars
 Prop_C07_FitIsFresh ==
     [][last'.op = "fit" =>
